@@ -71,14 +71,16 @@ type SessSpec struct {
 	NodeCost   map[string]float64 `json:"node_cost,omitempty"`
 	HasAllowed bool               `json:"has_allowed,omitempty"`
 	Allowed    []string           `json:"allowed,omitempty"`
-	Transport  string             `json:"transport,omitempty"` // "" = scripted channel session, "tcp", "udp"
+	Transport  string             `json:"transport,omitempty"` // "" = scripted channel session, "tcp", "udp", "ext" (ExternalBackend over a framed net.Conn)
 }
 
 type Step struct {
 	Sess      int    `json:"s"`
-	Op        string `json:"op"` // "send" | "hangup"
+	Op        string `json:"op"` // "send" | "hangup" | "raw" (socket transports: bytes written as they are, no framing)
 	Data      []byte `json:"d,omitempty"`
-	NoBarrier bool   `json:"nb,omitempty"` // do not wait for the node before the next step
+	Fill      int    `json:"fill,omitempty"`  // op "raw": this many filler bytes (0xee) follow Data
+	PauseMs   int    `json:"pause,omitempty"` // op "raw": sleep after the write
+	NoBarrier bool   `json:"nb,omitempty"`    // do not wait for the node before the next step
 }
 
 type CaseSpec struct {
@@ -301,6 +303,33 @@ func (p *sockPeer) send(b []byte) {
 	}
 }
 
+func (p *sockPeer) raw(b []byte, fill int) {
+	if p.conn == nil {
+		return
+	}
+	_ = p.conn.SetWriteDeadline(time.Now().Add(2 * time.Second))
+	if fill > 0 {
+		f := make([]byte, fill)
+		for i := range f {
+			f[i] = 0xee
+		}
+		b = append(append([]byte{}, b...), f...)
+	}
+	_, _ = p.conn.Write(b)
+}
+
+// drain discards whatever the node writes to the peer (a net.Pipe has no buffer).
+func (p *sockPeer) drain() {
+	go func() {
+		buf := make([]byte, 65536)
+		for {
+			if _, err := p.conn.Read(buf); err != nil {
+				return
+			}
+		}
+	}()
+}
+
 // ---------- running one case against a real node ----------
 
 const barrierTimeout = 3 * time.Second
@@ -390,6 +419,21 @@ func runCase(spec *CaseSpec) (obs CaseObs) {
 			}
 			defer c.Close()
 			socks[i] = &sockPeer{"tcp", c}
+			socks[i].drain()
+		case "ext":
+			eb, err := netceptor.NewExternalBackend()
+			if err == nil {
+				err = n.AddBackend(eb, mods...)
+			}
+			if err != nil {
+				obs.Err = "external backend: " + err.Error()
+				return obs
+			}
+			c1, c2 := net.Pipe()
+			eb.NewConnection(netceptor.MessageConnFromNetConn(c1), true)
+			defer c2.Close()
+			socks[i] = &sockPeer{"tcp", c2}
+			socks[i].drain()
 		case "udp":
 			li, err := backends.NewUDPListener("127.0.0.1:0", n.Logger)
 			if err == nil {
@@ -423,6 +467,11 @@ func runCase(spec *CaseSpec) (obs CaseObs) {
 			switch st.Op {
 			case "send":
 				socks[st.Sess].send(st.Data)
+			case "raw":
+				socks[st.Sess].raw(st.Data, st.Fill)
+				if st.PauseMs > 0 {
+					time.Sleep(time.Duration(st.PauseMs) * time.Millisecond)
+				}
 			case "hangup":
 				_ = socks[st.Sess].conn.Close()
 			}
